@@ -140,6 +140,34 @@ func removeNewEmptyDirs(fs afero.Fs, root, dir string) {
 	}
 }
 
+// pruneEmptyDirs removes, bottom-up, every directory below dir that holds no
+// file. It is run when a backend is opened: a process that was killed between
+// making a key's directories and moving the object into them, or between
+// removing an object and removing the directories it was the last one in,
+// leaves empty directories behind, which would be listed as common prefixes
+// of keys that do not exist, be in the way of a key of the same name and keep
+// their bucket from being deleted. dir itself is never removed; keep exempts
+// directories that are not part of the key space.
+func pruneEmptyDirs(fs afero.Fs, dir string, keep func(path string) bool) {
+	entries, err := afero.ReadDir(fs, dir)
+	if err != nil {
+		return
+	}
+	for _, entry := range entries {
+		if !entry.IsDir() {
+			continue
+		}
+		child := filepath.Join(dir, entry.Name())
+		if keep != nil && keep(child) {
+			continue
+		}
+		pruneEmptyDirs(fs, child, keep)
+		if rest, err := afero.ReadDir(fs, child); err == nil && len(rest) == 0 {
+			_ = fs.Remove(child)
+		}
+	}
+}
+
 // removeAll removes name and everything beneath it by walking the tree rather
 // than delegating to Fs.RemoveAll: afero.MemMapFs.RemoveAll removes every
 // entry whose path merely starts with name, so removing "bucket" would also
